@@ -257,7 +257,7 @@ def neutral_query(q):
 class JsLeg(object):
     """Batches the language-neutral cases of a shard for the node driver and compares them with the same reference."""
 
-    def __init__(self, res, prop_tag, classify=None, check_sources=True):
+    def __init__(self, res, prop_tag, classify=None, check_sources=True, compare_results=True):
         self.res = res
         self.prop_tag = prop_tag
         self.pending = []
@@ -265,6 +265,7 @@ class JsLeg(object):
         self.unavailable = False
         self.classify = classify
         self.check_sources = check_sources
+        self.compare_results = compare_results
 
     def add(self, case, ref, check_header=True):
         if self.unavailable:
@@ -292,7 +293,8 @@ class JsLeg(object):
         for (case, ref, check_header), o in zip(self.pending, outs):
             self.res.evaluations += 1
             self.res.count('js_cases')
-            compare(self.res, self.prop_tag, 'js', case, js_got(o), ref, check_header, self.classify)
+            if self.compare_results:
+                compare(self.res, self.prop_tag, 'js', case, js_got(o), ref, check_header, self.classify)
             if self.check_sources:
                 if not o['input_unchanged'] or not o['join_unchanged'] or not o['identity_ok']:
                     self.res.violation('js:sources-modified:' + feature_sig(case['q']), '[js] input/join arrays changed by the query %s (A=%r B=%r)' % (case['query_text_js'], case['A'], case['B']), dict(case, engine='js'))
